@@ -117,7 +117,7 @@ struct lq_any : limited_queue<T, primitives::std_queue, primitives::std_queue, p
         bool ok = false;
         std::thread t([&] {
             for (int i = 0; i < 5 && !ok; ++i)
-                if (this->_mx.try_lock()) { this->_mx.unlock(); ok = true; }
+                if (this->VN_queue__mx.try_lock()) { this->VN_queue__mx.unlock(); ok = true; }
         });
         t.join();
         return ok;
@@ -138,7 +138,7 @@ struct q_t : queue<T, QS, CS, L> {
         bool ok = false;
         std::thread t([&] {
             for (int i = 0; i < 5 && !ok; ++i)
-                if (this->_mx.try_lock()) { this->_mx.unlock(); ok = true; }
+                if (this->VN_queue__mx.try_lock()) { this->VN_queue__mx.unlock(); ok = true; }
         });
         t.join();
         return ok;
@@ -904,7 +904,7 @@ struct sq_adapter {
     using item = T;
     static constexpr bool limited = false;
     struct Q : queue<T, primitives::std_queue, primitives::std_queue, sched_lock> {
-        std::size_t nawait() const { return this->_awaiters.size(); }
+        std::size_t nawait() const { return this->VN_queue__awaiters.size(); }
         std::size_t nblocked() const { return 0; }
         suspend_point<bool> upop(std::exception_ptr e) { return this->unblock_pop(e); }
     };
@@ -917,8 +917,8 @@ struct slq_adapter {
     using base = limited_queue<T, primitives::std_queue, primitives::std_queue, primitives::std_queue, sched_lock>;
     struct Q : base {
         using base::base;
-        std::size_t nawait() const { return this->_awaiters.size(); }
-        std::size_t nblocked() const { return this->_blocked.size(); }
+        std::size_t nawait() const { return this->VN_queue__awaiters.size(); }
+        std::size_t nblocked() const { return this->VN_limited_queue__blocked.size(); }
         suspend_point<bool> upop(std::exception_ptr e) { return this->unblock_pop(e); }
     };
     static Q *make(std::size_t limit) { return new Q(limit); }
